@@ -8,6 +8,24 @@ import (
 	"strings"
 )
 
+// catClosed: is the language closed under concatenation (L·L ⊆ L)? Decided by emptiness of L·L ∩ ¬L.
+func (e *Engine) catClosed(lang string) bool {
+	if e.catClosedMemo == nil {
+		e.catClosedMemo = map[string]bool{}
+	}
+	if v, ok := e.catClosedMemo[lang]; ok {
+		return v
+	}
+	re := e.langs.Get(lang)
+	v := false
+	if re != nil {
+		_, found, _, err := reWitness(reAnd(reCat(re, re), reNot(re)), 20000)
+		v = err == nil && !found
+	}
+	e.catClosedMemo[lang] = v
+	return v
+}
+
 func (e *Engine) inL(s *Term, lang string) *Term {
 	e.langUsed[lang] = true
 	if s.IsStr() {
